@@ -80,7 +80,7 @@ def reduce_line(line):
 
 
 def shape_key(case, results):
-    t = case[0].split()
+    t = (case[0].split() if case else []) + ["?", "?", "?"]
     return "nms-n%s" % t[1]
 
 LEVEL_TEXT = ("Lean 4 theorems, for every coverage predicate, score threshold and input list, about a model of nms() that mirrors the code "
